@@ -109,7 +109,7 @@ func init() {
 
 var (
 	genName  = rapid.StringMatching(`[A-Za-zé日%$&(][A-Za-z0-9é日.'%$&*",;!?@\[\]{}|~^+_/\\:=#)>-]{0,8}( [A-Za-z(%][A-Za-z0-9)>:=#%&*!]{0,6}){0,2}`)
-	genEmail = rapid.StringMatching(`[a-zA-Z0-9_][a-zA-Z0-9_.+-]{0,7}@[a-z0-9]([a-z0-9-]{0,5}[a-z0-9])?(\.[a-z0-9]{1,4}){0,2}\.[a-zA-Z]{2,5}`)
+	genEmail = rapid.StringMatching(`[a-zA-Z0-9_][a-zA-Z0-9_.+-]{0,14}@[a-zA-Z0-9]([a-zA-Z0-9-]{0,10}[a-zA-Z0-9])?(\.[a-z0-9]{1,9}){0,3}\.[a-zA-Z]{2,14}`)
 )
 
 func genMessage(t *rapid.T) string {
